@@ -404,7 +404,7 @@ def make_harness(case, tier):
 
 
 def run_case(case, tier):
-    ctx = explore.explore(make_harness(case, tier), max_paths=200000, time_budget_s=120 if tier == "quick" else 900)
+    ctx = explore.explore(make_harness(case, tier), max_paths=(200000 if tier == 'quick' else 8000000), time_budget_s=(400 if tier == 'quick' else 3600))
     r = driver.result_from_ctx(ctx)
     # the functions of cache.py that were turned into generators and executed (this check does not use the import hook)
     r['entered_extra'] = ['taskchain.cache.FileCache.get', 'taskchain.cache.FileCache.get_or_compute', 'taskchain.cache.FileCache.filepath',
